@@ -2,7 +2,7 @@ SPEC = {
     'id': 'C10',
     'harness': 'hC10',
     'coq_dir': 'C10',
-    'claimed': False,
+    'claimed': True,
     'theorems': ['C10_table_refines_map_refuted', 'C10_refuted_del_add', 'C10_refuted_del_replace',
                  'C10_refuted_update_del', 'C10_refuted_sep_collision',
                  'C10_table_refines_map_partial', 'C10_every_save_partial', 'C10_queries_partial'],
